@@ -74,12 +74,6 @@ func (endpoint *PairVerify) ServeHTTP(response http.ResponseWriter, request *htt
 				break
 			}
 
-			// The response must leave in plain text: send it before the
-			// cryptographer is handed over, otherwise a concurrent read on
-			// the connection activates the encryption too early.
-			if f, ok := response.(http.Flusher); ok {
-				f.Flush()
-			}
 			if secSession, err = crypto.NewSecureSessionFromSharedKey(ctlr.SharedKey()); err == nil {
 				log.Debug.Println("Setup secure session")
 				session.SetCryptographer(secSession)
